@@ -166,6 +166,27 @@ def gen_cases(tier, rnd, prop, budget):
                         continue
                     K = sorted(set(G.minimal_ids(n)) | {c for c in range(2 ** n) if G.popcount(c) in comb})
                     yield n, v, K, tag + ":levelK"
+    # block-structured knowledge at n = 7, 8: minimal information plus a few DISJOINT blocks of 2-3 players with a bonus (and
+    # sometimes the union of two of them): the best partition of the union of the blocks has >= 3 parts none of which is a single
+    # player — the case in which "split off one player" and "split into two known parts" are both sub-optimal
+    if prop in ("C02", "C03", "C01"):
+        for i in range(6 if tier == "quick" else 60):
+            n = 7 + i % 2
+            players = list(range(n))
+            rnd.shuffle(players)
+            # three disjoint pairs (one or two players stay free, so the union of the pairs is NOT the grand coalition); every
+            # third case a pair is replaced by a triple when the players suffice
+            sizes_ = [2, 2, 2] if (i % 3 or n < 8) else [3, 2, 2]
+            blocks, pos = [], 0
+            for sz in sizes_:
+                blocks.append(sum(1 << p_ for p_ in players[pos:pos + sz]))
+                pos += sz
+            bonus = {b: Fraction(rnd.randint(1, 5)) for b in blocks}
+            v = [Fraction(G.popcount(c)) + sum((w_ for b, w_ in bonus.items() if c & b == b), Fraction(0)) for c in range(2 ** n)]
+            K = set(G.minimal_ids(n)) | set(blocks)
+            if i % 4 == 3:
+                K.add(blocks[0] | blocks[1])
+            yield n, v, sorted(K), "sa-blocks:blockK"
     for n, cnt in ((5, 300 if tier == "quick" else 5000), (6, 40 if tier == "quick" else 500),
                    (7, 0 if tier == "quick" else 50), (2, 4)):
         for i in range(cnt):
@@ -300,7 +321,7 @@ def run(tier: str, budget: Budget, rnd, prop: str) -> StreamResult:
                         break
                 if Kn != [c in set(K) for c in range(N)]:
                     res.violation("compute_bounds changed the known flags", case)
-            if prop == "C02" and n <= 5:
+            if prop == "C02" and (n <= 5 or tag.endswith(":blockK")):
                 tl, tu = tight_bounds(n, v, K)
                 for c in range(N):
                     if L[c] != tl[c] or U[c] != tu[c]:
